@@ -1,5 +1,5 @@
 (* C09 - solve_assignment: the per-arc flow on the network Mcf.assign_arcs that an assignment vector denotes,
-   and the boolean checker used on the implementation's answers (sound: McfCert.assignment_check_sound). *)
+   and the boolean checker used on the implementation's answers (sound: AssignProofs.assignment_check_sound). *)
 From Coq Require Import List ZArith Bool Arith Lia.
 From SV Require Import C09.Mcf C09.McfSpec.
 Import ListNotations.
@@ -28,5 +28,19 @@ Definition assignment_check (M : list (list Z)) (asg : list Z) (cost : Z) (pi : 
    && forallb (fun x => (-1 <=? x) && (x <? Z.of_nat m))%bool asg
    && cert_check (2 + n + m) (assign_arcs n m M) (assign_b n m) (asg_flow n m asg) pi
    && (cost =? flow_cost (assign_arcs n m M) (asg_flow n m asg)))%bool.
+
+(* ---------------- what "a matching of min(n,m) pairs" means for an assignment vector *)
+Fixpoint zsumf (g : nat -> Z) (N : nat) : Z :=
+  match N with O => 0 | S k => zsumf g k + g k end.
+
+Definition assigned (asg : list Z) (i : nat) : Z := if nth i asg (-1) =? -1 then 0 else 1.
+
+Record matching (n m : nat) (asg : list Z) : Prop := {
+  mt_len : length asg = n;                                   (* one entry per row *)
+  mt_range : forall i, (i < n)%nat -> nth i asg (-1) = -1 \/ 0 <= nth i asg (-1) < Z.of_nat m;
+  mt_inj : forall i i', (i < n)%nat -> (i' < n)%nat ->       (* no column twice *)
+           nth i asg (-1) <> -1 -> nth i asg (-1) = nth i' asg (-1) -> i = i';
+  mt_count : zsumf (assigned asg) n = Z.of_nat (Nat.min n m) (* exactly min(n,m) rows are assigned *)
+}.
 
 End AssignSpec.
